@@ -63,6 +63,28 @@ CLAIMED = {
 }
 
 
+BIT_MASKS = [1 << b for b in range(8)]
+
+
+def shorter_length_masks(message, every):
+    """(position, mask) pairs on the three length bytes whose xor yields a smaller (valid) body length:
+    all of them if `every`, else up to 24 evenly spread ones per length byte."""
+    length = int.from_bytes(message[1:4], "big")
+    out = []
+    for pos in (1, 2, 3):
+        cand = []
+        for mask in range(1, 256):
+            b = bytearray(message[1:4])
+            b[pos - 1] ^= mask
+            if int.from_bytes(b, "big") < length:
+                cand.append((pos, mask))
+        if not every and len(cand) > 24:
+            step = len(cand) / 24.0
+            cand = [cand[int(k * step)] for k in range(24)]
+        out.extend(cand)
+    return out
+
+
 def draw_config(ch):
     c = ch.stream("config")
     cred = fixtures.SERVER_CERTS[c.choose(len(fixtures.SERVER_CERTS))]
@@ -142,20 +164,34 @@ def run_transcript_integrity(seed, tier="quick", replay=None):
         raise RuntimeError("unexpected message in the baseline handshake: %r" % (unclaimed,))
 
     # ---- which alterations
+    # The 4 header bytes (type + 24-bit length) get every single-bit mask: a length that becomes SHORTER
+    # truncates the message (its tail is then parsed as the next message), which the three body masks never do.
     plan = []
     if tier == "thorough":
         for i, d, m in targets:
             for pos in range(len(m)):
-                for mask in MASKS:
+                for mask in (BIT_MASKS + [0xFF] if pos < 4 else MASKS):
                     plan.append((i, pos, mask))
+            plan.extend((i, pos, mask) for pos, mask in shorter_length_masks(m, m[0] == M.FINISHED))
     else:
         st = ch.stream("positions")
         for i, d, m in targets:
-            for pos in (0, 1, 2, 3, len(m) - 1):
-                plan.append((i, pos, MASKS[st.choose(3)]))
+            if m[0] == M.FINISHED:
+                for pos in range(4):
+                    for mask in BIT_MASKS:
+                        plan.append((i, pos, mask))
+                shorter = shorter_length_masks(m, True)
+                for _ in range(4):
+                    plan.append((i,) + shorter[st.choose(len(shorter))])
+            else:
+                for pos in range(4):
+                    plan.append((i, pos, BIT_MASKS[st.choose(8)]))
+                    plan.append((i, pos, BIT_MASKS[st.choose(8)]))
+            plan.append((i, len(m) - 1, MASKS[st.choose(3)]))
         for _ in range(QUICK_SAMPLE):
             i, d, m = targets[st.choose(len(targets))]
             plan.append((i, st.choose(len(m)), MASKS[st.choose(3)]))
+    plan = sorted(set(plan))
 
     reason = "ok"
     try:
